@@ -1,6 +1,7 @@
 package main
 
 import (
+	"math"
 	"fmt"
 	"math/rand"
 
@@ -38,7 +39,7 @@ func genC07(dir, tier string, seed int64) {
 		maxRank, keep = 4, 1
 	}
 	cw := newCaseWriter(dir, "C07_ops", opHeader("CheckC07"), opFooter,
-		fmt.Sprintf("bounded-exhaustive: all shapes of rank 0..%d with extents 1..3 x (Shape; Squeeze without axes and with every axes list of length<=2 over [-r-1,r]; Unsqueeze with every axes list of length 1..2 over [-(r+n)-1,r+n]; Flatten with every axis in [-r-2,r+2] and default; Reshape to every target of length<=3 over {-2,-1,0,1,2,3,4,6,9}); index-coded data; dtype round-robin over all 14; quick tier keeps all cases of rank<=2 and a seeded 1/%d sample of rank 3", maxRank, keep), tier == "thorough", 1500)
+		fmt.Sprintf("bounded-exhaustive: all shapes of rank 0..%d with extents 1..3 x (Shape; Squeeze without axes and with every axes list of length<=2 over [-r-1,r]; Unsqueeze with every axes list of length 1..2 over [-(r+n)-1,r+n]; Flatten with every axis in [-r-2,r+2], the int64 / int32 extremes and default; Reshape to every target of length<=3 over {-2,-1,0,1,2,3,4,6,9}); index-coded data; dtype round-robin over all 14; quick tier keeps all cases of rank<=2 and a seeded 1/%d sample of rank 3", maxRank, keep), tier == "thorough", 1500)
 	k := 0
 	for _, s := range shapesUpToRank(0, maxRank, []int{1, 2, 3}) {
 		s := s
@@ -86,6 +87,9 @@ func genC07(dir, tier string, seed int64) {
 		}
 		for a := -rk - 2; a <= rk+2; a++ {
 			emit("Flatten", []attr{aInt("axis", int64(a))})
+		}
+		for _, a := range []int64{math.MinInt64, math.MinInt64 + 1, math.MaxInt64, -(1 << 32), 1 << 32, -(1 << 31), 1<<31 - 1} {
+			emit("Flatten", []attr{aInt("axis", a)}) // extreme axes: refused like any other out-of-range axis
 		}
 		emit("Flatten", nil)
 		for _, tgt := range seqs([]int64{-2, -1, 0, 1, 2, 3, 4, 6, 9}, 3) {
